@@ -170,6 +170,8 @@ type SimSource struct {
 	Log      *core.Log
 	Yield    func(what string)
 	EOFs     int
+	// OnAsk is called at the start of every Read with the number of bytes handed out so far
+	OnAsk func(consumedBefore int)
 }
 
 func NewSource(img []byte, d Delivery, f *SrcFault, log *core.Log) *SimSource {
@@ -191,6 +193,9 @@ func (s *SimSource) Read(p []byte) (int, error) {
 	s.Calls++
 	if len(p) == 0 {
 		return 0, nil
+	}
+	if s.OnAsk != nil {
+		s.OnAsk(s.Consumed)
 	}
 	if f := s.Fault; f != nil {
 		if s.failed && f.Mode == "sticky" {
